@@ -372,6 +372,33 @@ def r13_no_materialise(ctx, rule='R13'):
                 if lv:
                     n_sites += 1
                     run.fail(rule, where(ctx.repo, n), f.qualname, n, 'a stream is unpacked with * (materialised)')
+        # next() on an upstream stream inside an unbounded loop whose result is kept (or that never yields)
+        if not isinstance(f.node, ast.Lambda):
+            facts_n = Facts(f, include_nested=False)
+            for lp in [x for x in own_nodes(f.node) if isinstance(x, (ast.While, ast.For, ast.AsyncFor))]:
+                bounded = isinstance(lp, ast.For) and isinstance(lp.iter, ast.Call) and \
+                    ((ctx.res.external_name(lp.iter) == 'builtins.range' and all(isinstance(a, ast.Constant) for a in lp.iter.args)) or
+                     (ctx.res.external_name(lp.iter) == 'itertools.islice' and isinstance(lp.iter.args[-1], ast.Constant)))
+                if bounded:
+                    continue
+                for c in ast.walk(lp):
+                    if isinstance(c, ast.Call) and isinstance(c.func, ast.Name) and c.func.id == 'next' and c.args \
+                            and L.level(f, c.args[0]) >= 1:
+                        n_sites += 1
+                        has_yield = any(isinstance(y, (ast.Yield, ast.YieldFrom)) for y in ast.walk(lp))
+                        holder = None
+                        par = getattr(c, '_parent', None)
+                        if isinstance(par, ast.Assign) and len(par.targets) == 1:
+                            holder = pseudo(par.targets[0])
+                        kept = False
+                        for x in ast.walk(lp):
+                            if isinstance(x, ast.Call) and isinstance(x.func, ast.Attribute) and \
+                                    x.func.attr in ('append', 'add', 'insert', 'extend', 'appendleft', 'setdefault', 'update'):
+                                if any(a is c or (holder and holder in facts_n.roots(a)) for a in x.args):
+                                    kept = True
+                        run.check(has_yield and not kept, rule, where(ctx.repo, c), f.qualname, 'loop with ' + u(c),
+                                  'an unbounded loop pulls rows from an upstream stream with next() and %s: the number of rows '
+                                  'read ahead depends on the data' % ('keeps them in a container' if kept else 'yields nothing'))
         # accumulate-then-yield / read-all-then-yield
         if not isinstance(f.node, ast.Lambda) and f.is_generator:
             facts = Facts(f, include_nested=False)
